@@ -307,6 +307,25 @@ class NameBinding(Binding):
     def __repr__(self):
         return self.__class__.__name__ + '(name=%r, allow_rename=%r) <references=%r>' % (self._name, self._allow_rename, len(self._references))
 
+    def is_assigned(self):
+        """
+        Does any reference to this name actually bind it
+
+        A name that is only loaded or declared global/nonlocal is not bound by this module.
+
+        :rtype: bool
+
+        """
+
+        for node in self.references:
+            if isinstance(node, ast.Name) and isinstance(node.ctx, ast.Load):
+                continue
+            if isinstance(node, (ast.Global, ast.Nonlocal)):
+                continue
+            return True
+
+        return False
+
     def should_rename(self, new_name):
         """
         Is it space efficient to rename this binding
@@ -446,6 +465,10 @@ class BuiltinBinding(NameBinding):
         elif name == 'object':
             # Classes must inherit from object to become a new-style class in python2
             self.disallow_rename()
+
+    def is_assigned(self):
+        # A builtin is bound in the builtins namespace
+        return True
 
     def new_mention_count(self):
         # All mentions must be Names, which would be replaced
